@@ -73,6 +73,11 @@ type Run struct {
 	Err   bool   `json:"err"`
 	Panic string `json:"panic,omitempty"`
 	State State  `json:"state"`
+	States []NamedState `json:"states,omitempty"` // the databases with a name of their own ("vdb_..."), sorted by name
+}
+type NamedState struct {
+	DB    string `json:"db"`
+	State State  `json:"state"`
 }
 type Case struct {
 	ID    int      `json:"id"`
@@ -116,11 +121,38 @@ type srow struct {
 	ts    int64 // inserted_at in ns
 }
 
-type fake struct {
+// dbst: one database of the server (its settings rows and its data tables)
+type dbst struct {
 	rows   map[uint32][]srow // the settings table: every row ever inserted, per fingerprint, in insertion order
+	tables map[string]*tst
+}
+
+func newDbst() *dbst {
+	d := &dbst{rows: map[uint32][]srow{}, tables: map[string]*tst{}}
+	for _, t := range tableNames {
+		d.tables[t] = &tst{ttl: "<initial>", policy: "<initial>"}
+	}
+	return d
+}
+
+func (d *dbst) copy() *dbst {
+	g := &dbst{rows: map[uint32][]srow{}, tables: map[string]*tst{}}
+	for k, v := range d.rows {
+		g.rows[k] = append([]srow{}, v...)
+	}
+	for k, v := range d.tables {
+		g.tables[k] = &tst{v.ttl, v.policy}
+	}
+	return g
+}
+
+// fake: the server: one clock, one statement log, one fault counter; several databases, the statements going to the
+// one selected by use (the database of the connection). Histories that never name a database live in "".
+type fake struct {
+	*dbst                    // the selected database
+	dbs    map[string]*dbst  // all databases by name
 	clock  int64             // server clock, ns
 	tick   int64             // advance per statement
-	tables map[string]*tst
 	log      []Call
 	fault    *Fault
 	n        int
@@ -130,24 +162,31 @@ type fake struct {
 	lastFrom int    // Case.LastFrom
 }
 
-func newFake() *fake {
-	f := &fake{rows: map[uint32][]srow{}, tables: map[string]*tst{}, clock: 1790000000 * 1e9, tick: 1500 * 1e6}
-	for _, t := range tableNames {
-		f.tables[t] = &tst{ttl: "<initial>", policy: "<initial>"}
+func (f *fake) use(name string) {
+	d, ok := f.dbs[name]
+	if !ok {
+		d = newDbst()
+		f.dbs[name] = d
 	}
+	f.dbst = d
+}
+
+func newFake() *fake {
+	f := &fake{dbs: map[string]*dbst{}, clock: 1790000000 * 1e9, tick: 1500 * 1e6}
+	f.use("")
 	return f
 }
 
 func (f *fake) clone() *fake {
-	g := newFake()
-	for k, v := range f.rows {
-		g.rows[k] = append([]srow{}, v...)
+	g := &fake{dbs: map[string]*dbst{}}
+	for k, v := range f.dbs {
+		g.dbs[k] = v.copy()
+		if v == f.dbst {
+			g.dbst = g.dbs[k]
+		}
 	}
 	g.clock, g.tick = f.clock, f.tick
 	g.mode, g.total, g.lastFrom = f.mode, f.total, f.lastFrom
-	for k, v := range f.tables {
-		g.tables[k] = &tst{v.ttl, v.policy}
-	}
 	return g
 }
 
@@ -398,6 +437,18 @@ func runCase(c *Case) {
 		if r.Log == nil {
 			r.Log = []Call{}
 		}
+		names := []string{}
+		for k := range f.dbs {
+			if k != "" {
+				names = append(names, k)
+			}
+		}
+		sort.Strings(names)
+		for _, k := range names {
+			f.use(k)
+			r.States = append(r.States, NamedState{k, f.state()})
+		}
+		f.use("")
 		r.State = f.state()
 	}
 	for i := range c.Runs {
@@ -712,8 +763,11 @@ func main() {
 			cs = []Case{genConc(r, id)}
 			id++
 			runs += 3
-		case x >= 20:
+		case x >= 23:
 			cs = []Case{genGlueSeq(r, id)}
+			id++
+		case x >= 20:
+			cs = []Case{genInitSeq(r, id)}
 			id++
 		case x < 10:
 			cs = []Case{genSeq(r, id)}
